@@ -154,8 +154,42 @@ fn textdiff_ops(alg: Algorithm, x: &[u32], y: &[u32], via: &str, fuel: i64) -> (
     (r, probes)
 }
 
+/// `timeout(d)` is a budget for the diff operation: a builder configured earlier (and reused,
+/// or cloned) must still give a tiny diff its full budget.  Real clock, generous margins (the
+/// timeout is 2 s for a diff that takes microseconds, the pause 2.2 s), so this cannot flake.
+fn drive_timeout_reuse(out: &mut Out) {
+    let old = "a\nb\nc\nd\ne\nf\ng\n";
+    let new = "a\nB\nc\nd\ne\nF\ng\n";
+    let mut handles = vec![];
+    for alg in ALGS {
+        handles.push(std::thread::spawn(move || {
+            let mut cfg = TextDiff::configure();
+            cfg.algorithm(alg);
+            cfg.timeout(Duration::from_millis(2000));
+            let reference = TextDiff::configure().algorithm(alg).diff_lines(old, new).ops().to_vec();
+            std::thread::sleep(Duration::from_millis(2200));
+            let cloned = cfg.clone();
+            let a = cfg.diff_lines(old, new).ops().to_vec();
+            let b = cloned.diff_lines(old, new).ops().to_vec();
+            (alg, reference, a, b)
+        }));
+    }
+    for h in handles {
+        if let Ok((alg, reference, a, b)) = h.join() {
+            for (via, got) in [("real_timeout_reuse", a), ("real_timeout_clone", b)] {
+                let case = out.next_case();
+                out.emit(&json!({"ev":"same","case":case,"clause":"plumbing","via":via,"alg":alg_name(alg),
+                    "old":[],"new":[],"fuel":-2,
+                    "a":{"ops":rec::ops_json(&reference),"panic":false,"probed":true},
+                    "b":{"ops":rec::ops_json(&got),"panic":false,"probed":true}}));
+            }
+        }
+    }
+}
+
 /// deadlines / timeouts configured on the builder and on capture_diff_deadline reach the algorithm
 fn drive_plumbing(a: &Args, out: &mut Out, rng: &mut Rng) {
+    drive_timeout_reuse(out);
     let thorough = a.thorough();
     let n = if thorough { 300 } else { 40 };
     for i in 0..n {
@@ -284,6 +318,8 @@ pub fn drive_c08(a: &Args, out: &mut Out) {
                 }
             };
             cmp("drop4", "nofinish_forward", "none", "nofinish");
+            cmp("drop4", "nofinish_forward", "replace", "replace_nofinish");
+            cmp("drop4", "nofinish_forward", "replace_nr", "replace_nofinish_nr");
             cmp("same", "mutref_forward", "none", "mutref");
             cmp("expand", "default_replace", "replace", "replace_nr");
             cmp("expand", "default_replace", "compact_replace", "compact_replace_nr");
